@@ -52,6 +52,7 @@ impl SwiftField for Field61 {
     where
         Self: Sized,
     {
+        super::swift_utils::require_ascii(input, "Field 61")?;
         // Format: 6!n[4!n]2a[1!a]15d1!a3!c[16x][//16x][34x]
         if input.len() < 15 {
             return Err(ParseError::InvalidFormat {
